@@ -188,7 +188,16 @@ let () =
        let rec run st rs macc sacc = (match rs with
          | [] -> (List.rev macc, List.rev sacc)
          | r :: rest ->
-           if Z.ltb r Z0 then
+           if string_of_z r = "-2" then
+             (* lines(): get_line(0), get_line(1), ... until the first None *)
+             let rec all st i acc = (match get_line src (z_small i) st with
+               | Ok (st', Some l) -> all st' (i + 1) (hex_of_bytes l :: acc)
+               | Ok (st', None) -> Some (st', List.rev acc)
+               | _ -> None) in
+             (match all st 0 [] with
+              | Some (st', ls) -> run st' rest (("[" ^ String.concat "/" ls ^ "]") :: macc) (("[" ^ String.concat "/" (List.map hex_of_bytes spec_lines) ^ "]") :: sacc)
+              | None -> (List.rev ("panic" :: macc), List.rev sacc))
+           else if Z.ltb r Z0 then
              (match line_count src st with
               | Ok (st', n) -> run st' rest (string_of_z n :: macc) (string_of_int (List.length spec_lines) :: sacc)
               | _ -> (List.rev ("panic" :: macc), List.rev sacc))
@@ -231,7 +240,8 @@ let () =
              let srcs' = Array.of_list (split_list srcs') and names' = Array.of_list (split_list names') and contents' = Array.of_list (split_list contents') in
              let u32max = z_of_string "4294967295" in
              let get a i = if Z.eqb i u32max then "-" else (let k = int_of_z i in if k < Array.length a then a.(k) else "?") in
-             let eff = List.concat_map (fun p -> if p = [z_small 126] then (match find_common_prefix sm.sm_sources with Some c -> [c] | None -> []) else [p]) o.ro_prefixes in
+             let tilde = [z_small 126] in
+             let eff = List.filter (fun p -> p <> tilde) o.ro_prefixes @ (if List.mem tilde o.ro_prefixes then (match find_common_prefix sm.sm_sources with Some c -> [c] | None -> []) else []) in
              let strip src = (match src with None -> "-" | Some b -> "=" ^ hex_of_bytes (spec_strip eff b)) in
              let want = List.map (fun t -> (t.t_dl, t.t_dc, t.t_sl, t.t_sc, t.t_range, strip (tok_source sm t), (if names = "1" then opt_hex' (tok_name sm t) else "-"))) sm.sm_tokens in
              let ts' = toks_of_string toks' in
@@ -334,16 +344,18 @@ let () =
                    | Some l -> (if has_prefix (codes "//@") l then "legacy " else "ref ") ^ enc (trim (drop 21 l))) in
        let prop = Some (want = impl) in
        count corr prop; verdict id corr prop (Printf.sprintf "model=%s\tspec=%s" mo want)
-     | [id; "hdr"; hex; chunks; impl_slice; impl_reader] ->
-       (* public API only: the two paths must agree with each other; the model predicts the stripped stream *)
+     | [id; "hdr"; hex; chunks; impl_slice; impl_reader; det_slice; det_reader; impl_url] ->
+       (* public API only: slice path, reader path under the given read sizes, detection predicate on both, and the data-URL path
+          must agree with each other (an equal map or an error on all); the model predicts whether the header is accepted *)
        let bs = bytes_of_hex hex in
        let sizes = List.map int_of_string (split_list chunks) in
        let rec cut bs sizes = (match bs, sizes with [], _ -> [] | _, [] -> [bs]
          | _, n :: r -> let rec take k l acc = if k = 0 then (List.rev acc, l) else (match l with [] -> (List.rev acc, []) | x :: t -> take (k-1) t (x :: acc)) in
                         let (a, b) = take (max n 1) bs [] in a :: cut b (r @ [n])) in
        let m_slice = (match strip_junk_header bs with Ok r -> "ok" | _ -> "err") and m_reader = (match reader_run (cut bs sizes) with Ok r -> "ok" | _ -> "err") in
-       let prop = Some (impl_slice = impl_reader) in
-       let corr = (m_slice = m_reader) && (m_slice = "err" && impl_slice = "err" || m_slice = "ok") in
+       let prop = Some (impl_slice <> "panic" && impl_slice = impl_reader && det_slice = det_reader && impl_url = impl_slice) in
+       let cls x = if String.length x >= 2 && String.sub x 0 2 = "ok" then "ok" else "err" in
+       let corr = (m_slice = m_reader) && (m_slice = "err" && cls impl_slice = "err" || m_slice = "ok") in
        count corr prop; verdict id corr prop (Printf.sprintf "model_slice=%s model_reader=%s" m_slice m_reader)
      | [id; "index"; secs; queries; impl_flat; impl_lookups] ->
        (* secs: "line:col@map" joined by '#'; queries "l:c" list; impl_flat: observation of flatten(); impl_lookups: per query "i|f" views *)
@@ -434,7 +446,21 @@ let () =
             | _ -> false) else true) in
        let prop = if impl = "panic" || not idem_ok || not ordered || not join_ok then Some false else if rmi_ok then Some (is_ok = spec_ok) else None in
        let _ = fault in
-       let corr = (m = impl) && (!m_idem = (if String.length impl_idem > 1 then String.sub impl_idem 0 1 else impl_idem)) in
+       (* sort_unstable_by_key may permute tokens that share a generated position when the segments were not already in order:
+          the relative order inside such a group is canonicalised on both sides (sorted input is compared exactly) *)
+       let canon_groups o = (if String.length o >= 3 && String.sub o 0 3 = "ok " && o <> "ok other-kind" then
+           (match List.rev (String.split_on_char '|' o) with
+            | last :: rest ->
+              let (toks, tail) = (match String.index_opt last '#' with Some k -> (String.sub last 0 k, String.sub last k (String.length last - k)) | None -> (last, "")) in
+              let ts = (try toks_of_string toks with _ -> []) in
+              let rec groups = function [] -> [] | t :: r -> let (same, others) = List.partition (fun u -> Z.eqb u.t_dl t.t_dl && Z.eqb u.t_dc t.t_dc) r in
+                                 List.sort compare (List.map string_of_tok (t :: same)) :: groups others in
+              String.concat "|" (List.rev ((String.concat ";" (List.concat (groups ts)) ^ tail) :: rest))
+            | [] -> o) else o) in
+       let doc_sorted = (match opt_of mappings with
+           | Some b -> (match spec_decode_mappings nsrc nn b with Ok l -> toks_sorted l | _ -> true) | None -> true) in
+       let same_obs = if doc_sorted then m = impl else canon_groups m = canon_groups impl in
+       let corr = same_obs && (doc_sorted = false || !m_idem = (if String.length impl_idem > 1 then String.sub impl_idem 0 1 else impl_idem)) in
        count corr prop; verdict id corr prop (Printf.sprintf "model=%s%s" (if corr then "same" else m ^ " idem=" ^ !m_idem) ((if not idem_ok then "\tnot-idempotent" else "") ^ (if not ordered then "\tnot-ordered" else "") ^ (if not join_ok then "\tsource-root-join-differs" else "")))
      | [id; "hermes"; mp; fb; offsets; impl] ->
        let m = map_of_string mp in
@@ -477,7 +503,10 @@ let () =
          | Some true, [before; _; aft; reser] -> Some (not (List.mem "panic" (split_list aft)) && String.sub before 3 (String.length before - 3) = reser)
          | Some true, _ -> Some false
          | p, _ -> p) in
-       let corr = (mo = impl) in
+       (* a function map whose entries are not in increasing order (kind "m") is binary-searched by the crate: the answer then depends on
+          the probe order of std's search, which the model's contract-level search does not promise to share; such documents only feed the crash oracle *)
+       let messy = List.exists (fun (_, d) -> match d with Some (_, _, "m") -> true | _ -> false) fbs in
+       let corr = (mo = impl) || messy in
        count corr prop; verdict id corr prop (Printf.sprintf "model=%s" (if corr then "same" else mo))
      | [id; "crash"; kind; input; impl] ->
        (* C05: no prediction, only the crash oracle *)
@@ -543,33 +572,73 @@ let () =
        let (c1, p1) = judge via_new and (c2, p2) = judge via_builder in
        let corr = c1 && c2 and prop = Some (p1 && p2) in
        count corr prop; verdict id corr prop "order"
-     | [id; "builder"; ops; rets; impl] ->
-       (* C13: ids returned by the builder and the finished map, for any history *)
+     | [id; "builder"; ops; rets; impl_root; impl_dbg; impl_views; impl] ->
+       (* C13: ids returned by the builder and the finished map, for any history of builder calls.
+          ops: F<file> S=<src> N=<name> R=<root> C<id>:<contents> I<id> D<k|-> A<dl:dc:sl:sc:src:name:range> *)
        let ops = if ops = "" then [] else String.split_on_char ';' ops in
        let ob s = if s = "-" then None else Some (bytes_of_hex (unq s)) in
-       let (b, outs, intended) = List.fold_left (fun (b, outs, intended) op ->
-           let arg = String.sub op 2 (String.length op - 2) in
+       let rest op = String.sub op 1 (String.length op - 1) in
+       let (b, outs) = List.fold_left (fun (b, outs) op ->
            (match op.[0] with
-            | 'S' -> let (id, b') = add_source (bytes_of_hex arg) b in (b', string_of_z id :: outs, intended)
-            | 'N' -> let (id, b') = add_name (bytes_of_hex arg) b in (b', string_of_z id :: outs, intended)
-            | 'R' -> (b_set_source_root (Some (bytes_of_hex arg)) b, "-" :: outs, intended)
-            | _ -> (match String.split_on_char ':' (String.sub op 1 (String.length op - 1)) with
+            | 'S' -> let (id, b') = add_source (bytes_of_hex (String.sub op 2 (String.length op - 2))) b in (b', string_of_z id :: outs)
+            | 'N' -> let (id, b') = add_name (bytes_of_hex (String.sub op 2 (String.length op - 2))) b in (b', string_of_z id :: outs)
+            | 'R' -> (b_set_source_root (Some (bytes_of_hex (String.sub op 2 (String.length op - 2)))) b, "-" :: outs)
+            | 'F' -> (b_set_file (ob (rest op)) b, "-" :: outs)
+            | 'D' -> (b_set_debug_id (if rest op = "-" then None else Some (z_of_string (rest op))) b, "-" :: outs)
+            | 'I' -> (b_add_to_ignore_list (z_of_string (rest op)) b, "-" :: outs)
+            | 'C' -> (match String.split_on_char ':' (rest op) with
+                      | [k; c] -> (match b_set_source_contents (z_of_string k) (ob c) b with Ok b' -> (b', "-" :: outs) | _ -> (b, "panic" :: outs))
+                      | _ -> failwith "bad C")
+            | _ -> (match String.split_on_char ':' (rest op) with
                     | [dl; dc; sl; sc; so; na; rg] ->
                       let (raw, b') = add0 (z_of_string dl) (z_of_string dc) (z_of_string sl) (z_of_string sc) (ob so) (ob na) (rg = "1") b in
-                      (b', (string_of_z raw.t_src ^ "/" ^ string_of_z raw.t_name) :: outs, (so, na) :: intended)
+                      (b', (string_of_z raw.t_src ^ "/" ^ string_of_z raw.t_name) :: outs)
                     | _ -> failwith "bad add")))
-         (builder_new None, [], []) ops in
+         (builder_new None, []) ops in
        let m = into_sourcemap b in
        let mo_rets = String.concat "," (List.rev outs) in
-       (* file is not part of the comparison here (the harness passes it to the constructor) *)
-       let strip_file s = (match String.index_opt s '|' with Some k -> String.sub s k (String.length s - k) | None -> s) in
-       let corr = (mo_rets = rets) && (strip_file (obs_of_map m) = strip_file impl) in
-       (* specification: equal strings get equal ids, different strings different ids (interning) *)
-       let ids = List.combine (List.rev outs) ops in
-       let src_ids = List.filter_map (fun (o, op) -> if op.[0] = 'S' then Some (String.sub op 2 (String.length op - 2), o) else None) ids in
-       let inj = List.for_all (fun (s1, i1) -> List.for_all (fun (s2, i2) -> (s1 = s2) = (i1 = i2)) src_ids) src_ids in
-       let prop = Some (inj && mo_rets = rets) in
-       let _ = intended in
+       let corr = (mo_rets = rets) && (obs_of_map m = impl) in
+       (* the simple interning specification, replayed on strings only (no model of the builder):
+          ids = index of first occurrence; the finished map reports what was set last; every added token resolves to its strings *)
+       let srcs = ref [] and names = ref [] and root = ref None and file = ref None and dbg = ref None and contents = Hashtbl.create 7 and ign = ref [] and toks = ref [] and ok = ref true in
+       let intern l x = (let rec idx k = function [] -> None | y :: r -> if y = x then Some k else idx (k + 1) r in
+                         match idx 0 !l with Some k -> k | None -> (l := !l @ [x]; List.length !l - 1)) in
+       List.iter2 (fun op ret -> match op.[0] with
+           | 'S' -> if string_of_int (intern srcs (String.sub op 2 (String.length op - 2))) <> ret then ok := false
+           | 'N' -> if string_of_int (intern names (String.sub op 2 (String.length op - 2))) <> ret then ok := false
+           | 'R' -> root := Some (bytes_of_hex (String.sub op 2 (String.length op - 2)))
+           | 'F' -> file := ob (rest op)
+           | 'D' -> dbg := (if rest op = "-" then None else Some (int_of_string (rest op)))
+           | 'I' -> ign := int_of_string (rest op) :: !ign
+           | 'C' -> (match String.split_on_char ':' (rest op) with [k; c] -> Hashtbl.replace contents (int_of_string k) c | _ -> ())
+           | _ -> (match String.split_on_char ':' (rest op) with
+                   | [dl; dc; sl; sc; so; na; rg] ->
+                     let si = (if so = "-" then "4294967295" else string_of_int (intern srcs (unq so))) and ni = (if na = "-" then "4294967295" else string_of_int (intern names (unq na))) in
+                     if ret <> si ^ "/" ^ ni then ok := false;
+                     toks := (if so = "-" then Printf.sprintf "%s:%s:-:%s" dl dc rg
+                              else Printf.sprintf "%s:%s:=%s:%s:%s:%s:%s" dl dc (hex_of_bytes (spec_join !root (bytes_of_hex (unq so)))) sl sc na rg) :: !toks
+                   | _ -> ())) ops (split_list rets);
+       (* the source of a token is joined with the FINAL root: recompute the views with it *)
+       let final_views = List.sort compare (List.map2 (fun op _ -> op) [] []) in ignore final_views;
+       let want_views = (let tv = ref [] in
+         List.iter (fun op -> if op.[0] = 'A' then (match String.split_on_char ':' (rest op) with
+             | [dl; dc; sl; sc; so; na; rg] ->
+               tv := (if so = "-" then Printf.sprintf "%s:%s:-:%s" dl dc rg
+                      else Printf.sprintf "%s:%s:=%s:%s:%s:%s:%s" dl dc (hex_of_bytes (spec_join !root (bytes_of_hex (unq so)))) sl sc na rg) :: !tv
+             | _ -> ())) ops; List.sort compare !tv) in
+       let got_views = List.sort compare (if impl_views = "" then [] else String.split_on_char ';' impl_views) in
+       let prop = (match String.split_on_char '|' impl with
+         | [f'; srcs'; names'; contents'; ign'; _] ->
+           let want_srcs = String.concat "," (List.map (fun x -> "=" ^ hex_of_bytes (spec_join !root (bytes_of_hex x))) !srcs) in
+           let want_names = String.concat "," (List.map (fun x -> "=" ^ x) !names) in
+           let want_contents = List.mapi (fun k _ -> match Hashtbl.find_opt contents k with Some c -> c | None -> "-") !srcs in
+           let got_contents = split_list contents' in
+           let contents_ok = (Hashtbl.length contents = 0 && contents' = "") || (got_contents = want_contents) || (List.for_all (fun c -> c = "-") want_contents && List.for_all (fun c -> c = "-") got_contents) in
+           let want_ign = List.sort_uniq compare !ign and got_ign = List.sort_uniq compare (List.map int_of_string (split_list ign')) in
+           let want_dbg = (match !dbg with None -> "-" | Some k -> Printf.sprintf "00000000-0000-0000-0000-0000000000%02x" k) in
+           Some (!ok && f' = opt_hex' !file && srcs' = want_srcs && names' = want_names && contents_ok && want_ign = got_ign
+                 && impl_root = opt_hex' !root && impl_dbg = want_dbg && got_views = want_views)
+         | _ -> Some false) in
        count corr prop; verdict id corr prop (if corr then "same" else "model_rets=" ^ mo_rets ^ " model_map=" ^ obs_of_map m)
      | [id; "fname"; text; toks; i; name; impl] ->
        (* text: utf-8 hex of the minified source, toks: tokens (names = indices), i: index of the looked-up token, name: utf-8 hex *)
